@@ -35,6 +35,7 @@ pub mod c18;
 #[cfg(multiboot2_verif)]
 pub mod c19;
 pub mod c20;
+pub mod dbg;
 
 #[cfg(not(kani))]
 pub mod probes;
